@@ -805,8 +805,8 @@ def gen(rng, tier):
         cases.append(batch)
         batch = []
     # --- exactly half a millisecond (and within the resolution of the double of it): either neighbouring millisecond is an
-    #     acceptable rounding, but fields, formats and round trips must all show the same one (tieu: judged by the harness
-    #     with that tolerance); .9995 s is where the two roundings used to disagree by a whole second (repo f44eb78)
+    #     acceptable rounding, but fields, formats and round trips must all show the same one (tieu: judged by the harness;
+    #     farther than max(1 us, 4 ulp(t)) from the tie the answer must be roundMs, only inside that distance either neighbour passes); .9995 s is where the two roundings used to disagree by a whole second (repo f44eb78)
     for _ in range(250 if big else 40):
         ms = min(max(rand_ms(rng), MS_MIN + 86400000), MS_MAX - 86400000)
         sec = ms // 1000
@@ -1179,8 +1179,8 @@ TRUSTED = ["tools/props/c19.py translate(): clang-14 JSON AST walker for yearFro
            "month_days, wd[], mn[], months (src/Date.cpp) into lean/Gen/DateGen.lean; unrecognised constructs are a TranslateError",
            "harness/c19.cpp incl. its Hinnant civil_from_days oracle; python3 datetime as second reference"]
 ASSUMPTIONS = ["IEEE-754 double steps abstracted by the model and exercised exhaustively by the scan: floor(t*(1/86400.0)) and floor(t/86400.0) are the integer day, "
-               "floor(floor(t*1000+0.5)/1000) and floor(t*1000+0.5) mod 1000 are second and millisecond of the instant rounded to the nearest millisecond (model: roundMs on microseconds; exercised 1..999 us around every kind of field boundary and before every midnight; at the 500 us tie, which a double cannot place, either neighbour is accepted but all observables must agree - op tieu), t - floor(t/86400.0)*86400.0 is the exact second of the day, "
-               "parseInt(frac)*pow(10,1-i) added to the instant is the fraction rounded to the nearest millisecond (for the exact value of `parse` ties within 0.06 ms are not generated; the parse -> FULL -> parse round trip is exercised on them with that tolerance by op rtp: a double near year 9999 cannot resolve them)",
+               "floor(floor(t*1000+0.5)/1000) and floor(t*1000+0.5) mod 1000 are second and millisecond of the instant rounded to the nearest millisecond (model: roundMs on microseconds; exercised 1..999 us around every kind of field boundary and before every midnight; at the 500 us tie, which a double cannot place, either neighbour is accepted only within max(1 us, 4 ulp(t)) of the tie, elsewhere roundMs is required, and all observables must agree - op tieu, a harness-side oracle: the model side answers only ok/range), t - floor(t/86400.0)*86400.0 is the exact second of the day, "
+               "parseInt(frac)*pow(10,1-i) added to the instant is the fraction rounded to the nearest millisecond (for the exact value of `parse` ties within 0.06 ms are not generated; the parse -> FULL -> parse round trip is exercised on them by op rtp within 0.5 ms + max(1 us, 4 ulp(t)), a harness-side oracle: a double near year 9999 cannot resolve them)",
                "C int arithmetic of yearFromTime does not overflow for instants of years 1..9999 (|d| < 3.7e6); elsewhere int arithmetic wraps (modelled by wrap32)",
                "TZ=UTC in the harness: strings without zone designator and the format-driven parser use the local zone, whose offset is then 0",
                "vsnprintf(\"%04i\"/\"%02i\"/\"%03i\") prints zero-padded decimals; String::split() yields the maximal runs of non-space bytes (C03)",
@@ -1202,4 +1202,4 @@ LEVEL_NOTE = ("Not theorems (validated by K, the harness's days-from-civil oracl
               "theorems are stated for the extended format yyyy-mm-ddThh:mm:ss+-hh[:]mm. Not in the proof: the double arithmetic of Date (floor(t/86400), fractional-day h/m/s extraction, millisecond rounding, "
               "pow(10,1-i)) is abstracted to exact integer milliseconds and checked by the exhaustive scan; int overflow for years beyond +-5.8e6 "
               "(365*(y-1970)) is outside the model and not generated; local-time paths run with TZ=UTC. Trusted: Lean kernel, the clang-AST/regex "
-              "translator in tools/props/c19.py, harness/c19.cpp. Instants are modelled in microseconds with the rounding to the millisecond explicit (roundMs); at exactly 0.5 ms either neighbouring millisecond is accepted, but consistently in all observables (op tieu; a double near year 9999 resolves 30 us). Three defects found and repaired: Date(str, fmt) read past the end of str (repo 2de0295); seconds and milliseconds were rounded separately, one second off at .9995 s (repo f44eb78); within 0.5 ms before midnight splitUTC/toString took the date from the unrounded and the time from the rounded instant (repo 4c81461).")
+              "translator in tools/props/c19.py, harness/c19.cpp. Instants are modelled in microseconds with the rounding to the millisecond explicit (roundMs); at exactly 0.5 ms either neighbouring millisecond is accepted, but consistently in all observables (op tieu; a double near year 9999 resolves 30 us). The repair f44eb78 lies below the model's abstraction (roundMs on integer microseconds): it is covered by the harness-side oracles tieu / rtp (model side: ok/range only; tolerance max(1 us, 4 ulp(t)) around the half-millisecond tie, roundMs required elsewhere) and the fp-round / fp-day re-checks, not by a theorem. Three defects found and repaired: Date(str, fmt) read past the end of str (repo 2de0295); seconds and milliseconds were rounded separately, one second off at .9995 s (repo f44eb78); within 0.5 ms before midnight splitUTC/toString took the date from the unrounded and the time from the rounded instant (repo 4c81461).")
